@@ -67,7 +67,8 @@ def _run_all(scenarios, procs=None, chunksize=4):
     ctx = mp.get_context('fork')
     out = [None] * len(scenarios)
     wall = int(os.environ.get('VERIF_CASE_WALL', '120'))
-    many = int(os.environ.get('VERIF_MANY_HANGS', '40'))
+    # (a twentieth of a large batch: the known findings alone make about 2 % of the thorough C07 sweep end stuck)
+    many = max(int(os.environ.get('VERIF_MANY_HANGS', '40')), len(scenarios) // 20)
     n_stuck = 0
     with ctx.Pool(procs, initializer=_init, maxtasksperchild=200) as pool:
         hs = [pool.apply_async(_one, (sc,)) for sc in scenarios]
